@@ -368,6 +368,9 @@ func (bucket *Bucket) inTransactionThen(fn func(txn *sql.Tx) error, committed fu
 		err = fn(txn)
 
 		if err == nil {
+			err = verifFault("txn.commit")
+		}
+		if err == nil {
 			err = txn.Commit()
 		}
 		verifNote("txn.end", bucket.name, ifelse[uint64](err == nil, 1, 0))
